@@ -11,6 +11,7 @@ VF_SCRIPT: operation skeleton, upper case = stream 0, lower case = stream 1
    T restore_state(most recent save of that stream)
 Arguments (seeds, lo, hi) and the pool of uniforms are symbolic.
 """
+import copy
 import math
 from typing import List
 
@@ -26,31 +27,6 @@ INT_LO = rt.envint("VF_LO", -2)             # next_int range is concrete per con
 INT_W = rt.envint("VF_W", 3)                # ALL ranges is the Engine-B lemma); set_seed arguments stay symbolic
 
 
-class RefStream:
-    def __init__(self, seed):
-        self.seed = seed
-        self.key = seed if seed >= 0 else -seed
-        self.idx = 0
-        self.saved = None
-        self.draws = 0
-
-    def u(self):
-        v = rngstub.POOL.get(self.key, self.idx)
-        self.idx += 1
-        self.draws += 1
-        return v
-
-    def twin(self):
-        """a fresh real stream object positioned at (key, idx): what the implementation itself computes
-        from u(key, idx).  The oracle demands self-consistency across all state manipulations, not a
-        particular formula (the property fixes ranges, not the mapping)."""
-        t = MersenneTwister(0)
-        t._random.setstate((self.key, self.idx))
-        self.idx += 1
-        self.draws += 1
-        return t
-
-
 def run(seed0, seed1, xs, ys, us):
     if rt.MODE != "symbolic":
         # replay 1: the real wrapper on the real Mersenne Twister
@@ -63,59 +39,58 @@ def run(seed0, seed1, xs, ys, us):
         # (extreme values such as the largest double below 1 have probability 2^-53 on the real generator)
     pool = rngstub.install(us)
     streams = [MersenneTwister(seed0), MersenneTwister(seed1)]
-    refs = [RefStream(seed0), RefStream(seed1)]
-    saved = [None, None]
+    # reference = the naive use of the same public API on a SHADOW object per stream: set_seed(x) and reset() are
+    # replaced by constructing a fresh stream (with x / with the current seed), save/restore by a deep copy of the
+    # whole shadow object ("continues exactly as it did after the save").  The shadows draw the same u(key, idx)
+    # from the pool; they never see the other stream's operations.  Nothing is assumed about how many uniforms a
+    # draw consumes or about state the wrapper keeps besides the generator.
+    shadows = [MersenneTwister(seed0), MersenneTwister(seed1)]
+    cur = [seed0, seed1]
+    saved, shadow_saved = [None, None], [None, None]
     for n, op in enumerate(SCRIPT):
         k = 0 if op.isupper() else 1
-        st, ref = streams[k], refs[k]
+        st = streams[k]
         o = op.upper()
-        before = len(rngstub.CALLS)
         where = f"op#{n} {op}"
         if o == "F":
-            got, exp = st.next_float(), ref.twin().next_float()
+            got, exp = st.next_float(), shadows[k].next_float()
             if got != exp:
                 return rt.fail("C12:next_float-value", lambda: where)
             if not (0.0 <= got < 1.0):
                 return rt.fail("C12:next_float-range", lambda: where)
         elif o == "B":
-            got, exp = st.next_bool(), ref.twin().next_bool()
+            got, exp = st.next_bool(), shadows[k].next_bool()
             if got != exp:
                 return rt.fail("C12:next_bool-value", lambda: where)
         elif o == "I":
             lo, hi = INT_LO, INT_LO + INT_W
             got = st.next_int(lo, hi)
-            exp = ref.twin().next_int(lo, hi)
+            exp = shadows[k].next_int(lo, hi)
             if got != exp:
                 return rt.fail("C12:next_int-value", lambda: where)
             if not (lo <= got <= hi):
                 return rt.fail("C12:next_int-range", lambda: f"{where}: {got} not in [{lo},{hi}]")
         elif o == "S":
             st.set_seed(xs[n])
-            ref.seed, ref.key, ref.idx = xs[n], (xs[n] if xs[n] >= 0 else -xs[n]), 0
+            cur[k] = xs[n]
+            shadows[k] = MersenneTwister(xs[n])
         elif o == "R":
             st.reset()
             # reset replays the sequence of the CURRENT seed, also when the generator state was restored
             # from a checkpoint taken under an earlier seed
-            ref.key, ref.idx = (ref.seed if ref.seed >= 0 else -ref.seed), 0
+            shadows[k] = MersenneTwister(cur[k])
         elif o == "V":
             saved[k] = st.save_state()
-            ref.saved = (ref.key, ref.idx)
+            shadow_saved[k] = copy.deepcopy(shadows[k])
         elif o == "T":
             if saved[k] is None:
                 continue
             st.restore_state(saved[k])
-            ref.key, ref.idx = ref.saved
+            shadows[k] = copy.deepcopy(shadow_saved[k])
         else:
             raise RuntimeError(op)
-        used = len(rngstub.CALLS) - before
-        if o in "FBI":
-            used -= 1          # the twin's draw
-        if o in "FBI" and used != 1:
-            return rt.fail("C12:draw-consumes-not-exactly-one-uniform", lambda: f"{where}: {used}")
-        if o not in "FBI" and used != 0:
-            return rt.fail("C12:non-draw-operation-consumes-uniforms", lambda: f"{where}: {used}")
-        if st.seed() != ref.seed:
-            return rt.fail("C12:seed()", lambda: f"{where}: {st.seed()} != {ref.seed}")
+        if st.seed() != cur[k]:
+            return rt.fail("C12:seed()", lambda: f"{where}: {st.seed()} != {cur[k]}")
     if pool.exhausted:
         raise RuntimeError("uniform pool too small for this script (harness error)")
     return True
@@ -154,24 +129,24 @@ def replay_protocol(streams, seed0, seed1, xs, ys):
                 return rt.fail("C12:stream-influenced-by-another-stream", f"{where}")
         elif o == "S":
             st.set_seed(xs[n])
-            refs[k].set_seed(xs[n])
+            refs[k] = MersenneTwister(xs[n])
             cur[k] = xs[n]
             if k == 0:
-                solo.set_seed(xs[n])
+                solo = MersenneTwister(xs[n])
         elif o == "R":
             st.reset()
             refs[k] = MersenneTwister(cur[k])
             if k == 0:
                 solo = MersenneTwister(cur[0])
         elif o == "V":
-            saved[k], rsaved[k] = st.save_state(), refs[k].save_state()
+            saved[k], rsaved[k] = st.save_state(), copy.deepcopy(refs[k])
             if k == 0:
-                ssaved = solo.save_state()
+                ssaved = copy.deepcopy(solo)
         elif o == "T" and saved[k] is not None:
             st.restore_state(saved[k])
-            refs[k].restore_state(rsaved[k])
+            refs[k] = copy.deepcopy(rsaved[k])
             if k == 0:
-                solo.restore_state(ssaved)
+                solo = copy.deepcopy(ssaved)
         if st.seed() != cur[k]:
             return rt.fail("C12:seed()", f"{where}: seed() = {st.seed()}, current seed {cur[k]}")
     for k in (0, 1):
@@ -224,23 +199,29 @@ def r_int_range(lo, hi) -> bool:
             self.i += 1
             return v
 
+        def getrandbits(self, k):
+            return int(self.random() * (1 << k))
+
+        def randrange(self, a, b=None):
+            a, b = (0, a) if b is None else (a, b)
+            return a + int(self.random() * (b - a))
+
+        def randint(self, a, b):
+            return self.randrange(a, b + 1)
+
         def seed(self, s):
             self.i = 0
     st = MersenneTwister(1)
     st._random = Scripted([0.0, 0.5, 0.9999999999999999, 0.25, 0.75])
     for _ in range(5):
-        before = st._random.i
         v = st.next_int(lo, hi)
-        if st._random.i - before != 1:
-            return rt.fail("C12:draw-consumes-not-exactly-one-uniform", f"{st._random.i - before}")
         if not (lo <= v <= hi) or not isinstance(v, int):
             return rt.fail("C12:next_int-range", f"next_int({lo},{hi}) = {v!r}")
     st._random.i = 0
     f = st.next_float()
-    before = st._random.i
     b = [st.next_bool() for _ in range(4)]
-    if not (0.0 <= f < 1.0) or st._random.i - before != 4 or not all(isinstance(x, bool) for x in b):
-        return rt.fail("C12:draw-consumes-not-exactly-one-uniform", f"{f} {b} consumed {st._random.i - before}")
+    if not (0.0 <= f < 1.0) or not all(isinstance(x, bool) for x in b):
+        return rt.fail("C12:next_float-range-or-next_bool-type", f"{f} {b}")
     real = MersenneTwister(7)
     for _ in range(1000):
         v = real.next_int(lo, hi)
